@@ -274,18 +274,13 @@ def run(ctx):
     root_regex(ctx, R5, repo)
 
     # ---- rule 6: gate refuses pending (from the folded tables)
-    from rules.c16 import fold_tables, lookup, FN as CS
+    from rules.c16 import transition_oracle, FN as CS
     csf = repo.func(CS)
-
-    class _Q:
-        def instance(self, *a, **k):
-            pass
-    tables, _tv, _params, _chain = fold_tables(_Q(), csf, fo)
+    oracle = transition_oracle(repo, fo)
     statuses = fo.enum_members("FOrdStatus")
     for kind in ("ORDERCANCELREQUEST", "ORDERCANCELREPLACEREQUEST"):
-        tab = tables[kind][0]
         for p in PENDING:
-            cell = lookup(tab, statuses[p], 0, statuses["PENDING_CANCEL" if kind == "ORDERCANCELREQUEST" else "PENDING_REPLACE"])
+            cell = oracle(kind, p, 0, statuses["PENDING_CANCEL" if kind == "ORDERCANCELREQUEST" else "PENDING_REPLACE"])
             ctx.instance(R6, f"gate[{kind},{p}]", cell is None, f"the {kind} gate answers {cell!r} for an order in {p}: a second request can be outstanding", loc(csf))
 
     # ------------------------------------------------------------------ rule 7
@@ -305,13 +300,9 @@ def enum_valued(val, fn, depth=0):
 
 
 def typestate(ctx, R2, repo, fo):
-    from rules.c16 import fold_tables, lookup, FN as CS
-
-    class _Q:
-        def instance(self, *a, **k):
-            pass
+    from rules.c16 import transition_oracle, FN as CS
     csf = repo.func(CS)
-    tables, _tv, _params, _chain = fold_tables(_Q(), csf, fo)
+    oracle = transition_oracle(repo, fo)
     statuses = fo.enum_members("FOrdStatus")
     exectypes = fo.enum_members("FExecType")
     sname = {v: k for k, v in statuses.items()}
@@ -320,7 +311,7 @@ def typestate(ctx, R2, repo, fo):
     def permitted(status_name):
         out = []
         for kind, want in (("ORDERCANCELREQUEST", "PENDING_CANCEL"), ("ORDERCANCELREPLACEREQUEST", "PENDING_REPLACE")):
-            cell = lookup(tables[kind][0], statuses[status_name], 0, statuses[want])
+            cell = oracle(kind, status_name, 0, statuses[want])
             if cell is True:
                 out.append(kind)
         return out
@@ -348,7 +339,7 @@ def typestate(ctx, R2, repo, fo):
                 for ms_name, ms in statuses.items():
                     n_eval += 1
                     try:
-                        cell = lookup(tables[kind][0], statuses[s0], eval_, ms)
+                        cell = oracle(kind, s0, eval_, ms)
                     except KeyError:
                         continue
                     if cell is not True:
